@@ -4,9 +4,12 @@ C24 — per-edge mutation, span and singleton-block tallies are exact.
 A  theorems in Props/C24: plain tally exact (mutations_edge = the edge above the mutation's node at its
    position, NULL above roots; counts = direct tally; span = right-left), independent of the sample mask and
    of the order of equal-position mutations, equal to mutation_span_array under tskit's `mut.edge` contract;
-   mutations_edge also exact in the size-biased variant.  Size-biased weights and blocks: not a theorem.
+   size-biased variant: mutations_edge exact, nodes_samples = number of mask nodes below each node in the
+   current forest, every mutation weighted by the number of mask nodes below its node at its position (any
+   mask = custom sample sets), no impossible state.  Size-biased span weights and blocks: not a theorem.
 B  Lean model at Float vs the real `_count_mutations` kernel, bit-for-bit, plain and size-biased, default and
-   custom sample masks, tskit's indexes and tie-shuffled valid indexes; model `specEdge` vs tskit `mut.edge`.
+   custom sample masks, tskit's indexes and tie-shuffled valid indexes; the executable specifications
+   `specEdge` / `samplesBelow` vs tskit's `mut.edge` / a count over tskit's tree.
 C  oracle: naive per-tree tallies with tskit's tree iterator against count_mutations (both variants, custom
    sample sets), mutation_span_array, the arrays ExpectationPropagation actually uses, and block_singletons.
 """
@@ -17,7 +20,7 @@ from .. import common, dating, gen, sweep_corr as sc
 from ..common import Result, Violation
 
 META = dict(
-    level='Lean theorems, for all valid edge tables/indexes/mutation tables: `_count_mutations` (plain) terminates and puts every mutation on the edge above its node at its position (NULL above roots), per-edge counts equal the direct tally, spans equal right-left, result independent of the sample mask and of the visiting order of equal-position mutations, equal to `mutation_span_array` under the tskit mut.edge contract; `mutations_edge` exact also in the size-biased variant. Partial: the size-biased weights (samples below, per tree) and the singleton blocks are not theorems - the size-biased model is tied bit-for-bit to the kernel and both are checked against naive per-tree tallies by the oracle only.',
+    level='Lean theorems, for all valid edge tables/indexes/mutation tables: `_count_mutations` (plain) terminates and puts every mutation on the edge above its node at its position (NULL above roots), per-edge counts equal the direct tally, spans equal right-left, result independent of the sample mask and of the visiting order of equal-position mutations, equal to `mutation_span_array` under the tskit mut.edge contract; size-biased variant (any sample mask, node times with parents older than children): `mutations_edge` exact, `nodes_samples[u]` = number of mask nodes at or below u in the current forest, each mutation weighted by the number of mask nodes below its node in the local tree at its position, walk to the root never fails. Partial: the size-biased span weights and the singleton blocks are not theorems - the size-biased model is tied bit-for-bit to the kernel and both are checked against naive per-tree tallies by the oracle only.',
     note='Lean kernel + {propext, Classical.choice, Quot.sound}; sampled bit-exact correspondence; tskit indexes checked per input; exact-arithmetic spans',
     technique='loop-invariant rule for the shared insertion/removal sweep + bit-exact model/implementation correspondence + per-tree oracle',
     ref='§3 C24',
@@ -27,7 +30,8 @@ LEAN_BUILD = ["TsdateVerif.Model.Proto", "TsdateVerif.Model.CountMut", "TsdateVe
 ASSUMPTIONS = [
     "tskit's insertion/removal indexes are checked per input (validB), not assumed; tskit's mut.edge and tree iterator are taken by contract in the oracle",
     "theorems are over an ordered field (span = right-left exactly); the Float model is compared bit-for-bit with numba",
-    "size-biased weights and singleton blocks are covered by correspondence/oracle only",
+    "size-biased span weights and singleton blocks are covered by correspondence/oracle only",
+    "size-biased theorems assume node times with every edge's parent strictly older than its child (timesOkB, checked per input)",
 ]
 
 
@@ -100,7 +104,7 @@ def kernel_cases(ctx, n_inputs, stream, res, stats):
         if m is None:
             res.corr_failures.append(Violation("count-model-bad-op", f"Lean model rejected a tskit input ({variant})", replay, "B"))
         else:
-            for j, nm in enumerate(("valid", "no_overlap", "nodes_below", "muts_ok")):
+            for j, nm in enumerate(("valid", "no_overlap", "nodes_below", "muts_ok", "times_ok")):
                 stats["hyp"][nm] += int(m["flags"][j] == "1")
             stats["hyp"]["n"] += 1
             same_me = np.array_equal(np.asarray(me, dtype=np.int64), m["mut_edge"])
@@ -118,6 +122,10 @@ def kernel_cases(ctx, n_inputs, stream, res, stats):
             if not np.array_equal(m["spec_edge"], tskit_edge_cache[key]):
                 res.corr_failures.append(Violation("spec-edge-differs-from-tskit",
                                                    "the model's specEdge differs from tskit's mut.edge", replay, "B"))
+            if sb and not np.array_equal(m["spec_weight"], sc.naive_mut_weights(ts, mask)):
+                res.corr_failures.append(Violation("spec-weight-differs-from-tree-count",
+                                                   "the model's samplesBelow differs from counting mask nodes below the "
+                                                   "mutation's node with tskit's tree", replay, "B"))
         # ---- C on the raw kernel output
         oracle_count(ts, tb, mask, sb, st, me, "kernel", replay, res)
         # ---- C on the public function (tskit's own indexes) incl. the custom sample-set path
@@ -255,7 +263,7 @@ def ep_case(rng, res, stats):
 
 
 def _stats():
-    return dict(fired={}, variants={}, hyp=dict(valid=0, no_overlap=0, nodes_below=0, muts_ok=0, n=0),
+    return dict(fired={}, variants={}, hyp=dict(valid=0, no_overlap=0, nodes_below=0, muts_ok=0, times_ok=0, n=0),
                 nontrivial_root_or_multiedge=0, blocks=0, blocks_cases=0, blocks_raised={}, ep_ok=0, ep_raised={})
 
 
@@ -280,7 +288,7 @@ def run(ctx):
                 "(kernel cases), or >= 2 blocks over > 1 tree (block cases); distinct by hash of the input.")
     h = stats["hyp"]
     res.extra = dict(input_distribution=stats,
-                     hypothesis_hit_rates={k: f"{h[k]}/{h['n']}" for k in ("valid", "no_overlap", "nodes_below", "muts_ok")})
+                     hypothesis_hit_rates={k: f"{h[k]}/{h['n']}" for k in ("valid", "no_overlap", "nodes_below", "muts_ok", "times_ok")})
     return res
 
 
